@@ -1,6 +1,10 @@
 //! E1 `seqx`: sequential bounded-exhaustive enumeration of amiquip's components, driven
 //! directly on this thread through the public API or `cfg(amiquip_verif)` probes.
+mod framebuf;
+mod slots;
 mod smoother;
+mod tune;
+mod url;
 
 use serde_json::Value;
 
@@ -52,6 +56,11 @@ fn main() {
     // keep panic output of caught panics quiet: checks install their own hooks when needed
     match cmd.as_str() {
         "smoother" => smoother::run(&args),
+        "slots" => slots::run(&args),
+        "tune" => tune::run(&args),
+        "framebuf" => framebuf::run(&args),
+        "url" => url::run(&args),
+        "slots-boundary-child" => slots::boundary_child(&args.rest[0]),
         "replay" => {
             let path = args.rest.first().cloned().unwrap_or_else(|| usage());
             let text = std::fs::read_to_string(&path).expect("read replay file");
@@ -59,6 +68,10 @@ fn main() {
             let check = v["check"].as_str().unwrap_or("").to_string();
             let ok = match check.as_str() {
                 "smoother" => smoother::replay(&v),
+                "slots" => slots::replay(&v),
+                "tune" => tune::replay(&v),
+                "framebuf" => framebuf::replay(&v),
+                "url" => url::replay(&v),
                 other => {
                     eprintln!("unknown replay check {:?}", other);
                     std::process::exit(2);
